@@ -171,6 +171,11 @@ func c14Accounting(e *core.Env, r *core.Rand, d *gen.Out) {
 	clock := obs.ClockAt(ref.Date{Y: 2024, M: 3, D: 15}, 600, 0)
 	// expected rows
 	want := map[ref.Tag]*c14Row{}
+	type c14Entry struct {
+		keys map[ref.Tag]bool
+		mins int
+	}
+	var perEntry []c14Entry
 	redundant := false
 	for i := range d.Doc.Recs {
 		rec := &d.Doc.Recs[i]
@@ -184,7 +189,13 @@ func c14Accounting(e *core.Env, r *core.Rand, d *gen.Out) {
 					}
 				}
 			}
-			for key := range ref.TagKeys(append(append([]ref.Tag{}, rt...), et...)) {
+			ks := ref.TagKeys(append(append([]ref.Tag{}, rt...), et...))
+			pe := c14Entry{keys: map[ref.Tag]bool{}, mins: rec.Entries[k].Minutes()}
+			for key := range ks {
+				pe.keys[key] = true
+			}
+			perEntry = append(perEntry, pe)
+			for key := range ks {
 				row := want[key]
 				if row == nil {
 					row = &c14Row{}
@@ -293,6 +304,50 @@ func c14Accounting(e *core.Env, r *core.Rand, d *gen.Out) {
 		}
 		e.Count("tag_filter_totals_checked", 1)
 	}
+	// several --tag clauses at once: every clause has to hold for an entry (its own tags together with the record's); naming
+	// a tag twice - in the same or in another notation - changes nothing; two values of one name are two clauses
+	for n := 0; n < 2 && len(keys) > 0; n++ {
+		k1 := keys[r.Intn(len(keys))]
+		k2 := keys[r.Intn(len(keys))]
+		switch r.Intn(3) {
+		case 0:
+			k2 = k1
+		case 1: // another value of the same name, if there is one
+			for _, c := range keys {
+				if c.Name == k1.Name && c.Value != k1.Value && c.Value != "" && k1.Value != "" {
+					k2 = c
+					break
+				}
+			}
+		}
+		t1, err1 := klog.NewTagFromString(ref.CanonicalTag(k1))
+		spelt2 := ref.CanonicalTag(k2)
+		if isASCIIName(k2.Name) && r.Bool() {
+			spelt2 = "#" + strings.ToUpper(k2.Name) + strings.TrimPrefix(spelt2, "#"+k2.Name)
+		}
+		t2, err2 := klog.NewTagFromString(spelt2)
+		if err1 != nil || err2 != nil {
+			continue
+		}
+		wantBoth := 0
+		for _, pe := range perEntry {
+			if pe.keys[k1] && pe.keys[k2] {
+				wantBoth += pe.mins
+			}
+		}
+		tres := runRO(e, &cli.Total{FilterArgs: util.FilterArgs{Tags: []klog.Tag{t1, t2}}, DecimalArgs: util.DecimalArgs{Decimal: true}, WarnArgs: util.WarnArgs{NoWarn: true}, NoStyleArgs: util.NoStyleArgs{NoStyle: true},
+			InputFilesArgs: util.InputFilesArgs{File: files(f)}}, 1, "", "", clock)
+		if tres.Panic != nil || tres.Err != nil {
+			e.Violation("tag-filter-fails", fmt.Sprintf("klog total --tag %s --tag %s failed", ref.CanonicalTag(k1), spelt2), w)
+			return
+		}
+		to, perr := parseTotalOutput(tres.Out)
+		if perr != nil || to.Total != strconv.Itoa(wantBoth) {
+			e.Violation("two-tag-clauses-disagree-with-accounting", fmt.Sprintf("`klog total --tag %s --tag %s` = %s, but the entries that carry both sum to %d", ref.CanonicalTag(k1), spelt2, to.Total, wantBoth), w)
+			return
+		}
+		e.Count("two_clause_tag_filters_checked", 1)
+	}
 	e.Count("files", 1)
 	if redundant {
 		e.Nontrivial(core.Hash64("c14a", d.Text))
@@ -313,4 +368,13 @@ func c14ValueCollision(want map[ref.Tag]*c14Row) bool {
 		seen[t] = true
 	}
 	return false
+}
+
+func isASCIIName(s string) bool {
+	for i := 0; i < len(s); i++ {
+		if s[i] >= 0x80 {
+			return false
+		}
+	}
+	return s != ""
 }
